@@ -202,7 +202,11 @@ def gro_atoms(o):
 def top_atoms(o):
     k = kind_of(o)
     if k == "mol":
-        return list(o.molecule_top)
+        # read the attribute itself where it exists: going through the `molecule_top` property would TRIGGER whatever
+        # that property does on first access (seed C18-10: deep_copy borrows the original's topology until the property
+        # is first read — an observer that reads the property repairs the defect it should see)
+        top = o.__dict__.get("_molecule_top")
+        return list(top if top is not None else o.molecule_top)
     if k == "atom":
         return [o.atom_top]
     return []
